@@ -857,10 +857,11 @@ class ExtensionsProperty(DictionaryProperty):
                         key, self.spec_version, 'extension-definition--',
                     )
                     # Whatever the extension defines, its entry is a non-empty
-                    # JSON object without nulls; if it names an extension
-                    # type, that must be one of the known ones.
-                    if not isinstance(subvalue, dict) or not subvalue \
-                            or any(v is None for v in subvalue.values()) \
+                    # JSON object without nulls or empty containers at any
+                    # depth; if it names an extension type, that must be one
+                    # of the known ones.
+                    if not isinstance(subvalue, dict) \
+                            or _contains_null_or_empty(subvalue) \
                             or subvalue.get("extension_type", "new-sdo") not in (
                                 "new-sdo", "new-sco", "new-sro",
                                 "property-extension",
